@@ -497,6 +497,7 @@ type pgInstOpt struct {
 	hub       *pgHub
 	slowRead  bool           // the collector takes the response stream in 2 KiB pieces, yielding in between: the server's sends last longer
 	handlers  *sftp.Handlers // request server: these handlers instead of store's
+	readOnly  bool           // os-backed server with the ReadOnly() option
 }
 
 // pgStartHandlers: a request server over the given handlers.
@@ -557,6 +558,9 @@ func pgStart(o pgInstOpt) (*pgInst, error) {
 		var so []sftp.ServerOption
 		if o.alloc {
 			so = append(so, sftp.WithAllocator())
+		}
+		if o.readOnly {
+			so = append(so, sftp.ReadOnly())
 		}
 		if o.maxTx != 0 {
 			so = append(so, sftp.WithMaxTxPacket(o.maxTx))
@@ -1161,6 +1165,7 @@ type pgGenOpt struct {
 	depth     int
 	maxTx     uint32
 	bigIO     bool
+	fewIDs    bool // request ids drawn from {7,8,9}: several requests in flight carry the same id (the server orders by arrival, not by id)
 }
 
 type pgProgram struct {
@@ -1185,6 +1190,9 @@ type pgGen struct {
 }
 
 func (g *pgGen) id() uint32 {
+	if g.o.fewIDs {
+		return uint32(7 + g.rng.Intn(3))
+	}
 	for {
 		v := g.rng.Uint32()
 		if !g.ids[v] {
